@@ -425,6 +425,18 @@ class SArr:
             ctx().assume(forall(lambda j: implies(land(j >= 0, j < n), m >= me.get((j,))), name=which))
         return m
 
+    def sum(self, axis=None):
+        if all(isinstance(conc(s_), int) for s_ in self.shape) and axis is None:
+            import itertools
+            out = 0
+            for idx in itertools.product(*[range(conc(s_)) for s_ in self.shape]):
+                out = out + self.get(idx)
+            return out
+        if self.ndim == 1:
+            # abstract finite sum over a symbolic extent: an unconstrained value (contracts that need more use Sum lemmas)
+            return fresh_real("sum") if self.dtype != "int" else fresh_int("sum")
+        raise Undecided("sum over a symbolic extent of a rank>1 array")
+
     def min(self): return self._extreme("min")
     def max(self): return self._extreme("max")
 
